@@ -349,7 +349,8 @@ def one_edit(rng, t):
                 s, e, c, nm, enf = rs[i]
                 ch = rng.choice(['range', 'content', 'name', 'enforce', 'drop'])
                 if ch == 'range':
-                    rs[i] = (s, e + 1, c, nm, enf)
+                    # positions are u32: at the maximum the edit moves the start down instead
+                    rs[i] = (s, e + 1, c, nm, enf) if e < 4294967295 else (max(0, s - 1) if s > 0 else s, e, c + 'r', nm, enf)
                 elif ch == 'content':
                     rs[i] = (s, e, c + 'k', nm, enf)
                 elif ch == 'name':
